@@ -372,6 +372,24 @@ def textexec(run, fx):
                         if seg[PG + 'm_numCharinfo'] != k or seg[PG + 'm_numGlyphs'] != k:
                             prob = '%s: %d character(s) appended but the segment counts are set to %r / %r' % (desc, k, seg[PG + 'm_numCharinfo'], seg[PG + 'm_numGlyphs'])
                             break
+                        # ill-formed text: the iterator recovers -- one U+FFFD per offending unit -- and the loop still runs to the NUL or nChars
+                        steps, i_ = [], 0
+                        ul = list(units)
+                        while i_ < len(ul):
+                            u_ = ul[i_]
+                            if w == 32 or u_ < 0xD800 or u_ > 0xDFFF:
+                                steps.append(i_)
+                                i_ += 1
+                            elif u_ <= 0xDBFF and i_ + 1 < len(ul) and 0xDC00 <= ul[i_ + 1] <= 0xDFFF:
+                                steps.append(i_)
+                                i_ += 2
+                            else:
+                                steps.append(i_)
+                                i_ += 1
+                        if parse(w, ul) is None and (k != min(nchars, len(steps)) or offs != steps[:k]):
+                            prob = ('%s: the text holds %d character(s) before the NUL, an ill-formed unit counting as one (U+FFFD); the loop appended %d at offsets %s, expected %d at %s -- it neither ran '
+                                    'to the NUL nor to nChars' % (desc, len(steps), k, offs, min(nchars, len(steps)), steps[:min(nchars, len(steps))]))
+                            break
                         wf = parse(w, list(units))
                         if wf is not None:
                             want = wf[:nchars]
